@@ -300,21 +300,10 @@ var harnesses = []harness{
 		e.thread("Shutdown", e.shutdown)
 		e.finish(false)
 	}},
-	{Name: "S3", Desc: "established connection: SendMessage || Disconnect || Shutdown", Overlap: []string{"SendMessage", "Disconnect"}, Body: func(o *obs) {
-		e := newEnv(o, false)
-		e.run()
-		e.background("peer", e.peerBody(peerScript{local: peerA}))
-		vsched.Quiesce()
-		vsched.StartExploring()
-		e.thread("SendMessage", func() {
-			call(o, "SendMessage", func() error { return e.pool.SendMessage(peerA, &pingMsg{X: 1}) })
-		})
-		e.thread("Disconnect", func() {
-			call(o, "Disconnect", func() error { return e.pool.Disconnect(peerA, errors.New("harness disconnect")) })
-		})
-		e.thread("Shutdown", e.shutdown)
-		e.finish(false)
-	}},
+	s3("S3", "established connection: SendMessage || Disconnect || Shutdown", true, true, true),
+	s3("S3a", "established connection: SendMessage || Shutdown", true, false, true),
+	s3("S3b", "established connection: Disconnect || Shutdown", false, true, true),
+	s3("S3c", "established connection: SendMessage || Disconnect (then Shutdown)", true, true, false),
 	{Name: "S4", Desc: "outgoing Connect || Shutdown", Overlap: []string{"Connect"}, Body: func(o *obs) {
 		e := newEnv(o, false)
 		e.run()
@@ -417,6 +406,43 @@ var harnesses = []harness{
 		})
 		e.finish(true)
 	}},
+}
+
+// s3 builds the established-connection harness with the chosen subset of concurrent operations.
+func s3(name, desc string, send, disc, shut bool) harness {
+	h := harness{Name: name, Desc: desc}
+	if shut {
+		if send {
+			h.Overlap = append(h.Overlap, "SendMessage")
+		}
+		if disc {
+			h.Overlap = append(h.Overlap, "Disconnect")
+		}
+	} else {
+		h.Overlap2 = [2]string{"SendMessage", "Disconnect"}
+	}
+	h.Body = func(o *obs) {
+		e := newEnv(o, false)
+		e.run()
+		e.background("peer", e.peerBody(peerScript{local: peerA}))
+		vsched.Quiesce()
+		vsched.StartExploring()
+		if send {
+			e.thread("SendMessage", func() {
+				call(o, "SendMessage", func() error { return e.pool.SendMessage(peerA, &pingMsg{X: 1}) })
+			})
+		}
+		if disc {
+			e.thread("Disconnect", func() {
+				call(o, "Disconnect", func() error { return e.pool.Disconnect(peerA, errors.New("harness disconnect")) })
+			})
+		}
+		if shut {
+			e.thread("Shutdown", e.shutdown)
+		}
+		e.finish(!shut)
+	}
+	return h
 }
 
 func harnessByName(n string) *harness {
